@@ -1412,7 +1412,7 @@ pub fn main() {
     std::fs::create_dir_all(&out_dir).unwrap();
     let fix = Fix::new();
     if std::env::var("MSVERIF_PROP").map(|p| p == "C13").unwrap_or(false) {
-        C13_CAP.store(if tier == "thorough" { 160 } else { 20 }, std::sync::atomic::Ordering::Relaxed);
+        C13_CAP.store(if tier == "thorough" { 60 } else { 20 }, std::sync::atomic::Ordering::Relaxed);
         C13_SEED.store(seed as usize, std::sync::atomic::Ordering::Relaxed);
     }
     match what {
